@@ -368,7 +368,7 @@ def conditions(tier):
         for ti in range(6):
             for short in (False, True):
                 for edges in (False, True):
-                    conds.append({"name": "message[%souter=%s,%s]" % ("edges," if edges else "", TAGS[ti], "short" if short else "long"), "fn": message, "timeout": t,
+                    conds.append({"name": "message[%souter=%s,%s]" % ("edges," if edges else "", TAGS[ti], "short" if short else "long"), "fn": message, "timeout": 2 * t,
                                   "part": {"p0": 3 if edges else 0, "p4": 5 if edges else 0, "ti": ti, "short": short},
                                   "bounds": "T1=%r, T5=%r; T2,T3,T4 from %r; outer tag %s, inner tag any of %r; %s closing tags" % (
                                       TEXTS[3 if edges else 0], TEXTS[5 if edges else 0], TEXTS, TAGS[ti], TAGS, "short '</>'" if short else "named")})
